@@ -9,7 +9,10 @@ Local Open Scope Z_scope.
 (* ---- 1. the object locks ---- *)
 
 (* in every reachable state: at most one holder per object key, at most one lock per thread,
-   (k, i) is in the holders list iff thread i is parked at its yield on a request locking k *)
+   every entry (k, i) of the holders list is a thread i parked at its yield on a request that
+   locked k, and every parked thread has its entry.  (The key of a resumable PUT is computed in the
+   store of the step that takes the lock; for all other requests it does not depend on the store
+   and the invariant is the equivalence C07_glock_inv_iff_static.) *)
 Theorem C07_glock_inv : forall s0 progs sched, glock_inv (fst (grun (init_g s0 progs) sched)).
 Proof. exact glock_inv_reachable. Qed.
 Print Assumptions C07_glock_inv.
@@ -18,12 +21,19 @@ Theorem C07_glock_inv_step : forall st i, glock_inv st -> glock_inv (fst (gstep 
 Proof. exact glock_inv_gstep. Qed.
 Print Assumptions C07_glock_inv_step.
 
+Theorem C07_glock_inv_iff_static : forall st i th r rest cap, glock_inv st ->
+  nth_error (g_threads st) i = Some th -> gt_todo th = r :: rest -> gt_prog th = GHold cap -> key_static r ->
+  forall k s, In (k, i) (g_holders st) <-> lock_key s r = Some k.
+Proof. exact glock_inv_iff_static. Qed.
+Print Assumptions C07_glock_inv_iff_static.
+
 (* a blocked step happens only when ANOTHER thread holds the key, and changes nothing but the
-   freezing of the head request of the stepping thread *)
+   freezing of the head request of the stepping thread; the key is the request's key in the store
+   of that step (what gstep computes) *)
 Theorem C07_blocked_step : forall st i, glock_inv st -> snd (gstep st i) = OBlocked ->
   exists th r0 rest k j,
     nth_error (g_threads st) i = Some th /\ gt_todo th = r0 :: rest /\ gt_prog th = GNew
-    /\ lock_key r0 = Some k /\ j <> i /\ In (k, j) (g_holders st) /\ holds_key st j k
+    /\ lock_key (g_store st) r0 = Some k /\ j <> i /\ In (k, j) (g_holders st) /\ holds_key st j k
     /\ fst (gstep st i) = mkGState (g_store st) (g_holders st)
                             (upd_nth (g_threads st) i (mkGThread (freeze (g_store st) r0 :: rest) GNew)).
 Proof. exact gstep_blocked_spec. Qed.
@@ -97,7 +107,7 @@ Print Assumptions C07_glog_request_origin.
 Theorem C07_compose_capture : forall st i b dst bad srcs dm cp,
   cur_req st i = Some (RCompose b dst bad srcs dm cp, GNew) -> snd (gstep st i) = OAt ->
   exists dstname,
-    lock_key (RCompose b dst bad srcs dm cp) = Some (b, dstname)
+    lock_key (g_store st) (RCompose b dst bad srcs dm cp) = Some (b, dstname)
     /\ Forall (src_usable (g_store st) b) srcs
     /\ g_store (fst (gstep st i)) = g_store st
     /\ cur_req (fst (gstep st i)) i
@@ -110,7 +120,7 @@ Print Assumptions C07_compose_capture.
 (* ... and their concatenation is stored with a generation fresh at commit time *)
 Theorem C07_compose_commit : forall st i b dst bad srcs dm cp o d,
   cur_req st i = Some (RCompose b dst bad srcs dm cp, GHold (Some o)) ->
-  lock_key (RCompose b dst bad srcs dm cp) = Some (b, d) ->
+  lock_key (g_store st) (RCompose b dst bad srcs dm cp) = Some (b, d) ->
   let s := g_store st in
   let o' := mkObj (o_data o) (o_ctype o) (s_clock s + 1) 1 (o_md5 o) (o_meta o) in
   step_effect st i = Some (EAdd b d o)
@@ -175,24 +185,88 @@ Print Assumptions C07_gen_upload_seq.
 
 (* ---- 5. the lock is held from check to mutation ---- *)
 
-(* while thread i holds the lock of (b, n), steps of other threads do not change object (b, n);
-   guard: no thread runs a resumable PUT or a bucket deletion (they take no object lock) *)
-Theorem C07_held_object_stable : forall st i j b n, glock_inv st -> all_reqs lock_respecting st ->
+(* lock_respecting excludes ONLY bucket deletions.  A handler run in store s changes no object but
+   the one whose lock the request takes in s — including the PUT completing a resumable upload *)
+Theorem C07_handle_frame_key : forall s r b n, lock_respecting r -> lock_key s r <> Some (b, n) ->
+  find_obj (fst (handle s r)) b n = find_obj s b n.
+Proof. exact handle_frame_key. Qed.
+Print Assumptions C07_handle_frame_key.
+
+(* while thread i holds the lock of (b, n), steps of other threads do not change object (b, n).
+   FULL statement (false, see C07_held_object_stable_refuted_stale_session):
+     forall st i j b n, glock_inv st -> all_reqs lock_respecting st ->
+       In ((b, n), i) (g_holders st) -> j <> i ->
+       find_obj (g_store (fst (gstep st j))) b n = find_obj (g_store st) b n.
+   Exact guard: sess_coherent st — the session of every parked resumable PUT still is a session for
+   the object the thread locked (the model's commit looks the session up again).  It is vacuous
+   when no thread issues resumable PUTs (C07_sess_coherent_static: the former theorem) and holds in
+   every state reachable from a well-formed store (C07_held_object_stable_reachable). *)
+Theorem C07_held_object_stable_partial : forall st i j b n, glock_inv st -> sess_coherent st ->
+  all_reqs lock_respecting st ->
   In ((b, n), i) (g_holders st) -> j <> i ->
   find_obj (g_store (fst (gstep st j))) b n = find_obj (g_store st) b n.
-Proof. exact held_object_stable. Qed.
-Print Assumptions C07_held_object_stable.
+Proof. exact held_object_stable_partial. Qed.
+Print Assumptions C07_held_object_stable_partial.
 
-Theorem C07_held_object_stable_run : forall mid st i b n, glock_inv st -> all_reqs lock_respecting st ->
+Theorem C07_sess_coherent_static : forall st, all_reqs key_static st -> sess_coherent st.
+Proof. exact sess_coherent_static. Qed.
+Print Assumptions C07_sess_coherent_static.
+
+Theorem C07_held_object_stable_reachable : forall s0 progs sched i j b n, sessions_wf s0 ->
+  s_upcount s0 + Z.of_nat (length sched) <= int64_max ->
+  let st := fst (grun (init_g s0 progs) sched) in
+  all_reqs lock_respecting st -> In ((b, n), i) (g_holders st) -> j <> i ->
+  find_obj (g_store (fst (gstep st j))) b n = find_obj (g_store st) b n.
+Proof. exact held_object_stable_reachable. Qed.
+Print Assumptions C07_held_object_stable_reachable.
+
+(* guard sess_safe (length mid) st: no resumable PUT at all, or the session invariant and an id
+   counter that cannot reach int64_max within the run *)
+Theorem C07_held_object_stable_run_partial : forall mid st i b n, glock_inv st -> all_reqs lock_respecting st ->
+  sess_safe (length mid) st ->
   In ((b, n), i) (g_holders st) -> Forall (fun j => j <> i) mid ->
   let st' := fst (grun st mid) in
   find_obj (g_store st') b n = find_obj (g_store st) b n
   /\ In ((b, n), i) (g_holders st')
   /\ nth_error (g_threads st') i = nth_error (g_threads st) i.
-Proof. exact held_object_stable_run. Qed.
-Print Assumptions C07_held_object_stable_run.
+Proof. exact held_object_stable_run_partial. Qed.
+Print Assumptions C07_held_object_stable_run_partial.
 
-(* the guard is needed *)
+(* the commit of the holder itself changes no object but the one it holds (a parked resumable PUT
+   stores the object it locked) *)
+Theorem C07_commit_changes_only_held_object : forall st i k b n, glock_inv st -> sess_coherent st ->
+  all_reqs lock_respecting st -> In (k, i) (g_holders st) -> (b, n) <> k ->
+  find_obj (g_store (fst (gstep st i))) b n = find_obj (g_store st) b n.
+Proof. exact commit_changes_only_held_object. Qed.
+Print Assumptions C07_commit_changes_only_held_object.
+
+(* the session invariant: well-formed stores stay well-formed, and the invariant holds in every
+   state reachable from a well-formed store (init_state is one) *)
+Theorem C07_sessions_wf_init : sessions_wf init_state.
+Proof. exact sessions_wf_init. Qed.
+Print Assumptions C07_sessions_wf_init.
+
+Theorem C07_sessions_wf_preserved : forall s r, sessions_wf s -> sessions_wf (fst (handle s r)).
+Proof. exact handle_sessions_wf. Qed.
+Print Assumptions C07_sessions_wf_preserved.
+
+Theorem C07_gsess_inv_step : forall st i, glock_inv st -> gsess_inv st -> s_upcount (g_store st) < int64_max ->
+  gsess_inv (fst (gstep st i)).
+Proof. exact gsess_inv_gstep. Qed.
+Print Assumptions C07_gsess_inv_step.
+
+Theorem C07_gsess_inv_reachable : forall s0 progs sched, sessions_wf s0 ->
+  s_upcount s0 + Z.of_nat (length sched) <= int64_max -> gsess_inv (fst (grun (init_g s0 progs) sched)).
+Proof. exact gsess_inv_reachable. Qed.
+Print Assumptions C07_gsess_inv_reachable.
+
+Theorem C07_sess_safe_reachable : forall s0 progs sched n, sessions_wf s0 ->
+  s_upcount s0 + Z.of_nat (length sched + n) <= int64_max ->
+  sess_safe n (fst (grun (init_g s0 progs) sched)).
+Proof. exact sess_safe_reachable. Qed.
+Print Assumptions C07_sess_safe_reachable.
+
+(* the guards are needed: a bucket deletion removes an object whose lock another thread holds *)
 Theorem C07_held_object_stable_refuted_delete_bucket :
   let st := fst (gstep (init_g c07_s1 [[c07_up [2]%N]; [RDeleteBucket c07_b c07_cp0]]) 0) in
   In ((c07_b, c07_n), 0%nat) (g_holders st)
@@ -201,15 +275,38 @@ Theorem C07_held_object_stable_refuted_delete_bucket :
 Proof. exact held_object_stable_refuted_delete_bucket. Qed.
 Print Assumptions C07_held_object_stable_refuted_delete_bucket.
 
-Theorem C07_held_object_stable_refuted_resumable_put :
+(* ... and from a store that is not well formed (a session under id "1" with the id counter at 0)
+   a session id is handed out twice, and the commit of a parked resumable PUT stores an object
+   whose lock another thread holds *)
+Theorem C07_held_object_stable_refuted_stale_session :
+  let s0 := set_uploads c07_s1 0 [([49]%N, mkUpload c07_b [109]%N [116]%N 0 [] empty_conds [])] in
+  let put := RResumablePut [49]%N (Some [98; 121; 116; 101; 115; 32; 48; 45; 48; 47; 49]%N) [9]%N in
+  let st := fst (grun (init_g s0 [[c07_up [2]%N]; [put];
+                                  [RResumableInit c07_b false (mkUpMeta c07_n [116]%N 0 []) c07_cp0]]) [0; 1; 2]%nat) in
+  glock_inv st /\ all_reqs lock_respecting st
+  /\ In ((c07_b, c07_n), 0%nat) (g_holders st)
+  /\ In ((c07_b, [109]%N), 1%nat) (g_holders st)
+  /\ (exists o, find_obj (g_store st) c07_b c07_n = Some o /\ o_data o = [1]%N)
+  /\ (exists o, find_obj (g_store (fst (gstep st 1))) c07_b c07_n = Some o /\ o_data o = [9]%N)
+  /\ ~ sessions_wf s0.
+Proof. exact held_object_stable_refuted_stale_session. Qed.
+Print Assumptions C07_held_object_stable_refuted_stale_session.
+
+(* the PUT that completes a resumable upload takes the object lock: with an upload parked holding
+   the lock of (b, n), the completing PUT of a session for (b, n) is blocked and changes nothing;
+   it proceeds (yield, then commit) once the holder has committed *)
+Theorem C07_resumable_put_blocked_by_holder :
   let s2 := fst (handle c07_s1 (RResumableInit c07_b false (mkUpMeta c07_n [116]%N 0 []) c07_cp0)) in
   let put := RResumablePut [49]%N (Some [98; 121; 116; 101; 115; 32; 48; 45; 48; 47; 49]%N) [9]%N in
   let st := fst (gstep (init_g s2 [[c07_up [2]%N]; [put]]) 0) in
   In ((c07_b, c07_n), 0%nat) (g_holders st)
+  /\ lock_key (g_store st) put = Some (c07_b, c07_n)
   /\ (exists o, find_obj (g_store st) c07_b c07_n = Some o /\ o_data o = [1]%N)
-  /\ (exists o, find_obj (g_store (fst (gstep st 1))) c07_b c07_n = Some o /\ o_data o = [9]%N).
-Proof. exact held_object_stable_refuted_resumable_put. Qed.
-Print Assumptions C07_held_object_stable_refuted_resumable_put.
+  /\ gstep st 1 = (st, OBlocked)
+  /\ map otag (snd (grun st [1; 0; 1; 1]%nat)) = [2; 200; 1; 200]
+  /\ (exists o, find_obj (g_store (fst (grun st [1; 0; 1; 1]%nat))) c07_b c07_n = Some o /\ o_data o = [9]%N).
+Proof. exact resumable_put_blocked_by_holder. Qed.
+Print Assumptions C07_resumable_put_blocked_by_holder.
 
 (* a patch conditioned on metageneration m that answers 200 was applied to an object whose
    metageneration was m at its commit *)
@@ -225,9 +322,10 @@ Proof. exact metagen_patch_never_applies_to_unmatched_state. Qed.
 Print Assumptions C07_metagen_patch_never_applies_to_unmatched_state.
 
 (* and the object that passed the check at the yield is the object the patch is applied to,
-   whatever the other threads do in between *)
-Theorem C07_held_patch_applies_to_checked_object : forall st i b n p cp mid,
-  glock_inv st -> all_reqs lock_respecting st ->
+   whatever the other threads do in between.  FULL statement (false for the reason
+   C07_held_object_stable is): the same without the guard sess_safe (S (length mid)) st. *)
+Theorem C07_held_patch_applies_to_checked_object_partial : forall st i b n p cp mid,
+  glock_inv st -> all_reqs lock_respecting st -> sess_safe (S (length mid)) st ->
   cur_req st i = Some (RPatch b n p cp, GNew) -> snd (gstep st i) = OAt ->
   Forall (fun j => j <> i) mid ->
   let st2 := fst (grun (fst (gstep st i)) mid) in
@@ -238,14 +336,15 @@ Theorem C07_held_patch_applies_to_checked_object : forall st i b n p cp mid,
     /\ cur_req st2 i = Some (RPatch b n p cp, GHold None)
     /\ snd (gstep st2 i) = ODone (if pt_bad p then err 400 else mkResp 200 (BMeta (view b n (patched p o))))
     /\ (pt_bad p = false -> find_obj (g_store (fst (gstep st2 i))) b n = Some (patched p o)).
-Proof. exact held_patch_applies_to_checked_object. Qed.
-Print Assumptions C07_held_patch_applies_to_checked_object.
+Proof. exact held_patch_applies_to_checked_object_partial. Qed.
+Print Assumptions C07_held_patch_applies_to_checked_object_partial.
 
 (* ---- 6. no lost update ---- *)
 
+(* the key of an effect is computed in the store of its commit step, where gstep runs the handler *)
 Theorem C07_object_changes_only_by_own_key_commit : forall st j b n, all_reqs lock_respecting st ->
   find_obj (g_store (fst (gstep st j))) b n <> find_obj (g_store st) b n ->
-  exists e, step_effect st j = Some e /\ effect_key e = Some (b, n).
+  exists e, step_effect st j = Some e /\ effect_key (g_store st) e = Some (b, n).
 Proof. exact object_changes_only_by_own_key_commit. Qed.
 Print Assumptions C07_object_changes_only_by_own_key_commit.
 
@@ -304,17 +403,30 @@ Proof.
 Qed.
 
 (* a metageneration-conditioned patch parked at its yield while an uploader of the same object is
-   blocked: hypotheses of C07_held_patch_applies_to_checked_object *)
+   blocked: hypotheses of C07_held_patch_applies_to_checked_object_partial *)
 Example C07_held_patch_nonvacuous :
   let st := init_g c07_s1 [[c07_patch]; [c07_up [3]%N]] in
-  all_reqs lock_respecting st
+  all_reqs lock_respecting st /\ glock_inv st /\ gsess_inv st /\ sess_safe 6 st
   /\ cur_req st 0 = Some (c07_patch, GNew) /\ snd (gstep st 0) = OAt
   /\ map otag (snd (grun st [0; 1; 0; 1; 1]%nat)) = [1; 2; 200; 1; 200].
 Proof.
-  cbn zeta. split.
-  - apply all_reqs_init. repeat constructor.
-  - split; [reflexivity|]. split; vm_compute; reflexivity.
+  cbn zeta.
+  assert (Hwf : sessions_wf c07_s1) by (apply handle_sessions_wf; apply sessions_wf_init).
+  split; [apply all_reqs_init; repeat constructor|]. split; [apply glock_inv_init|].
+  split; [apply gsess_inv_init; exact Hwf|].
+  split; [right; split; [apply gsess_inv_init; exact Hwf|vm_compute; discriminate]|].
+  split; [reflexivity|]. split; vm_compute; reflexivity.
 Qed.
+
+(* a resumable PUT parked at its yield holding the lock of its session's object, in a state
+   reachable from a well-formed store: the guards of section 5 hold there *)
+Example C07_sess_safe_nonvacuous :
+  let s2 := fst (handle c07_s1 (RResumableInit c07_b false (mkUpMeta c07_n [116]%N 0 []) c07_cp0)) in
+  let put := RResumablePut [49]%N (Some [98; 121; 116; 101; 115; 32; 48; 45; 48; 47; 49]%N) [9]%N in
+  let st := fst (grun (init_g s2 [[c07_up [2]%N]; [put]]) [0; 1; 0; 1]%nat) in
+  sessions_wf s2 /\ glock_inv st /\ all_reqs lock_respecting st /\ gsess_inv st /\ sess_safe 5 st
+  /\ parked_put st 1 [49]%N (c07_b, c07_n).
+Proof. exact sess_safe_nonvacuous. Qed.
 
 (* symbolic preconditions: both first steps, then both commits.  If thread 1 made its first step
    only after thread 0's answer, its condition would be frozen to the NEW generation and it would
